@@ -215,9 +215,16 @@ def real_library_runs(ctx):
                 log = os.path.join(d, "log-%s-%d-%d.txt" % (kind, n, rep))
                 env2 = dict(env, C28_KIND=kind, C28_LOG=log,
                             PYTHONPATH=env.get("PYTHONPATH", "") + os.pathsep + d)
-                p = subprocess.run([exe, str(n)], env=env2, stdout=subprocess.PIPE, stderr=subprocess.PIPE,
-                                   text=True, timeout=120)
                 runs += 1
+                try:
+                    p = subprocess.run([exe, str(n)], env=env2, stdout=subprocess.PIPE, stderr=subprocess.PIPE,
+                                       text=True, timeout=60)
+                except subprocess.TimeoutExpired:
+                    # a real embedded library whose calls never return (a normal run takes < 1 s)
+                    bad.append({"kind": kind, "threads": n, "problems": ["did not terminate within 60 s"], "stderr": ""})
+                    if len(bad) >= 3:
+                        return runs, bad
+                    continue
                 try:
                     lines = open(log).read().split()
                 except OSError:
